@@ -357,7 +357,10 @@ def step (st : St) (line : String) : St × String :=
          let psks : List (Option Bytes) :=
            (List.range 10).map fun i => (pskPairs.find? (·.1 == i)).map (·.2)
          let cfg : BuildCfg :=
-           { pattern := p.pattern, mods := p.mods, name := p.name, initiator := arg 2 == "i"
+           { pattern := p.pattern, mods := p.mods
+             -- `alias=x<hex>`: NoiseParams.name replaced by a free-form string after parsing
+             name := (if (kv parts "alias").startsWith "x" then unhex ((kv parts "alias").drop 1).toString else p.name)
+             initiator := arg 2 == "i"
              s := optBytes (kv parts "s"), eFixed := optBytes (kv parts "e"), rs := optBytes (kv parts "rs")
              psks := psks, prologue := (optBytes (kv parts "pro")).getD [], rng := unhex (kv parts "rng") }
          match build S av cfg with
